@@ -12,6 +12,7 @@ import (
 	"github.com/pentops/j5/gen/j5/ext/v1/ext_j5pb"
 	"github.com/pentops/j5/gen/j5/list/v1/list_j5pb"
 	"github.com/pentops/j5/gen/j5/schema/v1/schema_j5pb"
+	"github.com/pentops/j5/gen/j5/source/v1/source_j5pb"
 	"github.com/pentops/j5/lib/j5schema"
 	"google.golang.org/protobuf/proto"
 	"google.golang.org/protobuf/reflect/protoreflect"
@@ -691,36 +692,81 @@ func optTs(t *timestamppb.Timestamp) string {
 	return some(fmt.Sprintf("(%s, %s)", zT(t.Seconds), zT(int64(t.Nanos))))
 }
 
-// FieldTerm renders a schema_j5pb.Field as a Coq [fschema] (exported form: scalars
-// carry no Kind / WellKnownTypeName).
-func FieldTerm(f *schema_j5pb.Field) (string, error) {
+// schemaTerm renders the `schema` oneof of an enum / object / oneof field of the source form.
+func schemaTerm(ref *schema_j5pb.Ref, inline bool) string {
+	switch {
+	case ref != nil:
+		return "(XRef " + refTerm(ref) + ")"
+	case inline:
+		return "XInline"
+	}
+	return "XUnset"
+}
+
+// FieldTerm renders a schema_j5pb.Field as a Coq [xfield] (coq/model/ExportForm.v).
+func FieldTerm(f *schema_j5pb.Field) (string, error) { return j5FieldTerm(f, true) }
+
+// j5FieldTerm: x = true renders the source form ([xfield]); x = false renders the same message as the
+// reader's [fschema] with the scalar Kind / WellKnownTypeName absent (FScalar None), for the direct
+// comparison with the reader's own objects (inline schemas are not representable there).
+func j5FieldTerm(f *schema_j5pb.Field, x bool) (string, error) {
+	con := func(name string) string {
+		if x {
+			return "X" + name
+		}
+		return "F" + name
+	}
+	sch := func(ref *schema_j5pb.Ref, inline bool, what string) (string, error) {
+		if x {
+			return schemaTerm(ref, inline), nil
+		}
+		if ref == nil {
+			return "", fmt.Errorf("inline or unset %s", what)
+		}
+		return refTerm(ref), nil
+	}
 	switch t := f.Type.(type) {
 	case *schema_j5pb.Field_Any:
-		return fmt.Sprintf("(FAny %s %s %s)", boolT(t.Any.OnlyDefined), strList(t.Any.Types), optTok(t.Any.ListRules)), nil
+		return fmt.Sprintf("(%s %s %s %s)", con("Any"), boolT(t.Any.OnlyDefined), strList(t.Any.Types), optTok(t.Any.ListRules)), nil
 	case *schema_j5pb.Field_Enum:
-		r, ok := t.Enum.Schema.(*schema_j5pb.EnumField_Ref)
-		if !ok {
-			return "", fmt.Errorf("inline enum")
+		var ref *schema_j5pb.Ref
+		if r, ok := t.Enum.Schema.(*schema_j5pb.EnumField_Ref); ok {
+			ref = r.Ref
+		}
+		_, inline := t.Enum.Schema.(*schema_j5pb.EnumField_Enum)
+		st, err := sch(ref, inline, "enum")
+		if err != nil {
+			return "", err
 		}
 		rules := "None"
 		if t.Enum.Rules != nil {
 			rules = some("(" + strList(t.Enum.Rules.In) + ", " + strList(t.Enum.Rules.NotIn) + ")")
 		}
-		return fmt.Sprintf("(FEnum %s %s %s %s)", refTerm(r.Ref), rules, optTok(t.Enum.ListRules), optTok(t.Enum.Ext)), nil
+		return fmt.Sprintf("(%s %s %s %s %s)", con("Enum"), st, rules, optTok(t.Enum.ListRules), optTok(t.Enum.Ext)), nil
 	case *schema_j5pb.Field_Object:
-		r, ok := t.Object.Schema.(*schema_j5pb.ObjectField_Ref)
-		if !ok {
-			return "", fmt.Errorf("inline object")
+		var ref *schema_j5pb.Ref
+		if r, ok := t.Object.Schema.(*schema_j5pb.ObjectField_Ref); ok {
+			ref = r.Ref
 		}
-		return fmt.Sprintf("(FObject %s %s %s %s)", refTerm(r.Ref), boolT(t.Object.Flatten), optTok(t.Object.Rules), optTok(t.Object.Ext)), nil
+		_, inline := t.Object.Schema.(*schema_j5pb.ObjectField_Object)
+		st, err := sch(ref, inline, "object")
+		if err != nil {
+			return "", err
+		}
+		return fmt.Sprintf("(%s %s %s %s %s)", con("Object"), st, boolT(t.Object.Flatten), optTok(t.Object.Rules), optTok(t.Object.Ext)), nil
 	case *schema_j5pb.Field_Oneof:
-		r, ok := t.Oneof.Schema.(*schema_j5pb.OneofField_Ref)
-		if !ok {
-			return "", fmt.Errorf("inline oneof")
+		var ref *schema_j5pb.Ref
+		if r, ok := t.Oneof.Schema.(*schema_j5pb.OneofField_Ref); ok {
+			ref = r.Ref
 		}
-		return fmt.Sprintf("(FOneof %s %s %s %s)", refTerm(r.Ref), optTok(t.Oneof.Rules), optTok(t.Oneof.ListRules), optTok(t.Oneof.Ext)), nil
+		_, inline := t.Oneof.Schema.(*schema_j5pb.OneofField_Oneof)
+		st, err := sch(ref, inline, "oneof")
+		if err != nil {
+			return "", err
+		}
+		return fmt.Sprintf("(%s %s %s %s %s)", con("Oneof"), st, optTok(t.Oneof.Rules), optTok(t.Oneof.ListRules), optTok(t.Oneof.Ext)), nil
 	case *schema_j5pb.Field_Map:
-		item, err := FieldTerm(t.Map.ItemSchema)
+		item, err := j5FieldTerm(t.Map.ItemSchema, x)
 		if err != nil {
 			return "", err
 		}
@@ -732,9 +778,9 @@ func FieldTerm(f *schema_j5pb.Field) (string, error) {
 		if t.Map.Ext != nil {
 			ext = some(optStr(t.Map.Ext.SingleForm))
 		}
-		return fmt.Sprintf("(FMap %s %s %s)", item, rules, ext), nil
+		return fmt.Sprintf("(%s %s %s %s)", con("Map"), item, rules, ext), nil
 	case *schema_j5pb.Field_Array:
-		item, err := FieldTerm(t.Array.Items)
+		item, err := j5FieldTerm(t.Array.Items, x)
 		if err != nil {
 			return "", err
 		}
@@ -746,11 +792,14 @@ func FieldTerm(f *schema_j5pb.Field) (string, error) {
 		if t.Array.Ext != nil {
 			ext = some(optStr(t.Array.Ext.SingleForm))
 		}
-		return fmt.Sprintf("(FArray %s %s %s)", item, rules, ext), nil
+		return fmt.Sprintf("(%s %s %s %s)", con("Array"), item, rules, ext), nil
 	}
 	p, err := sprotoTerm(f)
 	if err != nil {
 		return "", err
+	}
+	if x {
+		return "(XScalar " + p + ")", nil
 	}
 	return "(FScalar None " + p + ")", nil
 }
@@ -837,8 +886,8 @@ func sprotoTerm(f *schema_j5pb.Field) (string, error) {
 	return "", fmt.Errorf("field without a known type: %T", f.Type)
 }
 
-func propTerm(p *schema_j5pb.ObjectProperty) (string, error) {
-	s, err := FieldTerm(p.Schema)
+func propTerm(p *schema_j5pb.ObjectProperty, x bool) (string, error) {
+	s, err := j5FieldTerm(p.Schema, x)
 	if err != nil {
 		return "", err
 	}
@@ -846,21 +895,37 @@ func propTerm(p *schema_j5pb.ObjectProperty) (string, error) {
 	for _, n := range p.ProtoField {
 		path = append(path, fmt.Sprintf("%d", n))
 	}
-	return fmt.Sprintf("Prop_ %s %s %s %s %s %s", Str(p.Name), list(path), boolT(p.Required), boolT(p.ExplicitlyOptional), Str(p.Description), s), nil
+	con := "Prop_"
+	if x {
+		con = "XProp"
+	}
+	return fmt.Sprintf("%s %s %s %s %s %s %s", con, Str(p.Name), list(path), boolT(p.Required), boolT(p.ExplicitlyOptional), Str(p.Description), s), nil
 }
 
-// RootTerm renders an exported RootSchema as a Coq [root].
-func RootTerm(r *schema_j5pb.RootSchema) (string, error) {
+// RootTerm renders an exported RootSchema as a Coq [xroot] (the source form, coq/model/ExportForm.v).
+func RootTerm(r *schema_j5pb.RootSchema) (string, error) { return rootTerm(r, true) }
+
+// RootTermAsReflected renders an exported RootSchema with the constructors of the reader's [root]
+// (scalars as FScalar None): what the reader's own object must look like apart from Kind / WKT name.
+func RootTermAsReflected(r *schema_j5pb.RootSchema) (string, error) { return rootTerm(r, false) }
+
+func rootTerm(r *schema_j5pb.RootSchema, x bool) (string, error) {
 	props := func(ps []*schema_j5pb.ObjectProperty) (string, error) {
 		var it []string
 		for _, p := range ps {
-			s, err := propTerm(p)
+			s, err := propTerm(p, x)
 			if err != nil {
 				return "", err
 			}
 			it = append(it, s)
 		}
 		return list(it), nil
+	}
+	con := func(xname, rname string) string {
+		if x {
+			return xname
+		}
+		return rname
 	}
 	switch t := r.Type.(type) {
 	case *schema_j5pb.RootSchema_Object:
@@ -872,24 +937,189 @@ func RootTerm(r *schema_j5pb.RootSchema) (string, error) {
 		if t.Object.Entity != nil {
 			ent = some(fmt.Sprintf("(%s, %d)", Str(t.Object.Entity.Entity), int32(t.Object.Entity.Part)))
 		}
-		return fmt.Sprintf("RObject %s %s %s %s %s", Str(t.Object.Name), Str(t.Object.Description), ent, strList(t.Object.AnyMember), ps), nil
+		return fmt.Sprintf("%s %s %s %s %s %s", con("XObjectR", "RObject"), Str(t.Object.Name), Str(t.Object.Description), ent, strList(t.Object.AnyMember), ps), nil
 	case *schema_j5pb.RootSchema_Oneof:
 		ps, err := props(t.Oneof.Properties)
 		if err != nil {
 			return "", err
 		}
-		return fmt.Sprintf("ROneof %s %s %s", Str(t.Oneof.Name), Str(t.Oneof.Description), ps), nil
+		return fmt.Sprintf("%s %s %s %s", con("XOneofR", "ROneof"), Str(t.Oneof.Name), Str(t.Oneof.Description), ps), nil
 	case *schema_j5pb.RootSchema_Enum:
 		var opts, info []string
 		for _, o := range t.Enum.Options {
-			opts = append(opts, fmt.Sprintf("EnumOption %s %s %s %s", Str(o.Name), zT(int64(o.Number)), Str(o.Description), infoTerm(o.Info)))
+			opts = append(opts, fmt.Sprintf("%s %s %s %s %s", con("XOption", "EnumOption"), Str(o.Name), zT(int64(o.Number)), Str(o.Description), infoTerm(o.Info)))
 		}
 		for _, f := range t.Enum.Info {
 			info = append(info, fmt.Sprintf("(%s, %s, %s)", Str(f.Name), Str(f.Label), Str(f.Description)))
 		}
-		return fmt.Sprintf("REnum %s %s %s %s %s", Str(t.Enum.Name), Str(t.Enum.Description), Str(t.Enum.Prefix), list(opts), list(info)), nil
+		return fmt.Sprintf("%s %s %s %s %s %s", con("XEnumR", "REnum"), Str(t.Enum.Name), Str(t.Enum.Description), Str(t.Enum.Prefix), list(opts), list(info)), nil
 	}
 	return "", fmt.Errorf("root without a type")
+}
+
+// ---------------------------------------------------------------- what of schema.proto the export form covers
+
+const (
+	covDescend = iota // rendered member by member
+	covOpaque         // rendered as a token of the whole deterministic encoding
+	covKeyConst       // MapField.key_schema: must be the constant unconstrained string schema
+)
+
+func covSet(mode int, names ...string) map[string]int {
+	m := map[string]int{}
+	for _, n := range names {
+		m[n] = mode
+	}
+	return m
+}
+
+func covMerge(ms ...map[string]int) map[string]int {
+	out := map[string]int{}
+	for _, m := range ms {
+		for k, v := range m {
+			out[k] = v
+		}
+	}
+	return out
+}
+
+var bounds4 = covSet(covDescend, "minimum", "maximum", "exclusive_minimum", "exclusive_maximum")
+
+// exportCovered lists, per message of j5.schema.v1, the fields RootTerm renders (and so the Coq export
+// form carries). A populated field outside this table is invisible to the model.
+var exportCovered = map[string]map[string]int{
+	"j5.schema.v1.RootSchema":            covSet(covDescend, "oneof", "object", "enum"),
+	"j5.schema.v1.Object":                covSet(covDescend, "name", "description", "entity", "properties", "any_member"),
+	"j5.schema.v1.EntityObject":          covSet(covDescend, "entity", "part"),
+	"j5.schema.v1.Oneof":                 covSet(covDescend, "name", "description", "properties"),
+	"j5.schema.v1.Enum":                  covSet(covDescend, "name", "description", "prefix", "options", "info"),
+	"j5.schema.v1.Enum.Option":           covSet(covDescend, "name", "number", "description", "info"),
+	"j5.schema.v1.Enum.OptionInfoField":  covSet(covDescend, "name", "label", "description"),
+	"j5.schema.v1.ObjectProperty":        covSet(covDescend, "schema", "name", "required", "explicitly_optional", "description", "proto_field"),
+	"j5.schema.v1.Field":                 covSet(covDescend, "any", "oneof", "object", "enum", "array", "map", "string", "integer", "float", "bool", "bytes", "decimal", "date", "timestamp", "key"),
+	"j5.schema.v1.Ref":                   covSet(covDescend, "package", "schema"),
+	"j5.schema.v1.AnyField":              covMerge(covSet(covDescend, "only_defined", "types"), covSet(covOpaque, "list_rules")),
+	"j5.schema.v1.ObjectField":           covMerge(covSet(covDescend, "ref", "flatten"), covSet(covOpaque, "rules", "ext")),
+	"j5.schema.v1.OneofField":            covMerge(covSet(covDescend, "ref"), covSet(covOpaque, "rules", "list_rules", "ext")),
+	"j5.schema.v1.EnumField":             covMerge(covSet(covDescend, "ref", "rules"), covSet(covOpaque, "list_rules", "ext")),
+	"j5.schema.v1.EnumField.Rules":       covSet(covDescend, "in", "not_in"),
+	"j5.schema.v1.ArrayField":            covSet(covDescend, "rules", "items", "ext"),
+	"j5.schema.v1.ArrayField.Rules":      covSet(covDescend, "min_items", "max_items", "unique_items"),
+	"j5.schema.v1.ArrayField.Ext":        covSet(covDescend, "single_form"),
+	"j5.schema.v1.MapField":              covMerge(covSet(covDescend, "item_schema", "rules", "ext"), covSet(covKeyConst, "key_schema")),
+	"j5.schema.v1.MapField.Rules":        covSet(covDescend, "min_pairs", "max_pairs"),
+	"j5.schema.v1.MapField.Ext":          covSet(covDescend, "single_form"),
+	"j5.schema.v1.StringField":           covMerge(covSet(covDescend, "format", "rules"), covSet(covOpaque, "list_rules")),
+	"j5.schema.v1.StringField.Rules":     covSet(covDescend, "pattern", "min_length", "max_length"),
+	"j5.schema.v1.FloatField":            covMerge(covSet(covDescend, "format", "rules"), covSet(covOpaque, "list_rules")),
+	"j5.schema.v1.FloatField.Rules":      bounds4,
+	"j5.schema.v1.IntegerField":          covMerge(covSet(covDescend, "format", "rules"), covSet(covOpaque, "list_rules")),
+	"j5.schema.v1.IntegerField.Rules":    bounds4,
+	"j5.schema.v1.BoolField":             covMerge(covSet(covDescend, "rules"), covSet(covOpaque, "list_rules")),
+	"j5.schema.v1.BoolField.Rules":       covSet(covDescend, "const"),
+	"j5.schema.v1.BytesField":            covSet(covDescend, "rules"),
+	"j5.schema.v1.BytesField.Rules":      covSet(covDescend, "min_length", "max_length"),
+	"j5.schema.v1.DecimalField":          covMerge(covSet(covDescend, "rules"), covSet(covOpaque, "list_rules")),
+	"j5.schema.v1.DecimalField.Rules":    bounds4,
+	"j5.schema.v1.DateField":             covMerge(covSet(covDescend, "rules"), covSet(covOpaque, "list_rules")),
+	"j5.schema.v1.DateField.Rules":       bounds4,
+	"j5.schema.v1.TimestampField":        covMerge(covSet(covDescend, "rules"), covSet(covOpaque, "list_rules")),
+	"j5.schema.v1.TimestampField.Rules":  bounds4,
+	"j5.schema.v1.KeyField":              covMerge(covSet(covDescend, "format", "entity"), covSet(covOpaque, "list_rules")),
+	"j5.schema.v1.KeyFormat":             covSet(covDescend, "informal", "custom", "uuid", "id62"),
+	"j5.schema.v1.KeyFormat.Custom":      covSet(covDescend, "pattern"),
+	"j5.schema.v1.KeyFormat.Informal":    {},
+	"j5.schema.v1.KeyFormat.UUID":        {},
+	"j5.schema.v1.KeyFormat.ID62":        {},
+	"j5.schema.v1.EntityKey":             covMerge(covSet(covDescend, "primary_key", "tenant_key"), covSet(covOpaque, "foreign_key")),
+}
+
+// ExportCoverage walks an exported schema and returns every populated field of a j5.schema.v1 message
+// that the Coq export form does not carry (sorted, each once), e.g. "j5.schema.v1.IntegerField.Rules.multiple_of".
+func ExportCoverage(m proto.Message) []string {
+	seen := map[string]bool{}
+	var walk func(msg protoreflect.Message)
+	walk = func(msg protoreflect.Message) {
+		md := msg.Descriptor()
+		if md.ParentFile().Package() != "j5.schema.v1" {
+			return
+		}
+		allowed, known := exportCovered[string(md.FullName())]
+		msg.Range(func(fd protoreflect.FieldDescriptor, v protoreflect.Value) bool {
+			name := string(fd.Name())
+			mode, ok := allowed[name]
+			if !known || !ok {
+				seen[string(md.FullName())+"."+name] = true
+				return true
+			}
+			switch mode {
+			case covOpaque:
+			case covKeyConst:
+				want := &schema_j5pb.Field{Type: &schema_j5pb.Field_String_{}}
+				got, _ := v.Message().Interface().(*schema_j5pb.Field)
+				if got == nil || !(proto.Equal(got, want) || proto.Equal(got, &schema_j5pb.Field{Type: &schema_j5pb.Field_String_{String_: &schema_j5pb.StringField{}}})) {
+					seen[string(md.FullName())+"."+name+" (not the constant string schema)"] = true
+				}
+			default:
+				switch {
+				case fd.IsMap():
+				case fd.IsList() && fd.Message() != nil:
+					l := v.List()
+					for i := 0; i < l.Len(); i++ {
+						walk(l.Get(i).Message())
+					}
+				case fd.Message() != nil:
+					walk(v.Message())
+				}
+			}
+			return true
+		})
+	}
+	walk(m.ProtoReflect())
+	var out []string
+	for k := range seen {
+		out = append(out, k)
+	}
+	sort.Strings(out)
+	return out
+}
+
+// APITerm renders the packages of a source_j5pb.API as a Coq [xapi] (coq/model/ExportApi.v): packages in
+// the order of the API, schema maps sorted by name.
+func APITerm(api *source_j5pb.API) (string, error) {
+	schemas := func(m map[string]*schema_j5pb.RootSchema) (string, error) {
+		var names []string
+		for n := range m {
+			names = append(names, n)
+		}
+		sort.Strings(names)
+		var it []string
+		for _, n := range names {
+			t, err := RootTerm(m[n])
+			if err != nil {
+				return "", fmt.Errorf("%s: %w", n, err)
+			}
+			it = append(it, fmt.Sprintf("(%s, %s)", Str(n), t))
+		}
+		return "[" + strings.Join(it, ";\n      ") + "]", nil
+	}
+	var pkgs []string
+	for _, p := range api.Packages {
+		ps, err := schemas(p.Schemas)
+		if err != nil {
+			return "", fmt.Errorf("%s: %w", p.Name, err)
+		}
+		var subs []string
+		for _, sp := range p.SubPackages {
+			ss, err := schemas(sp.Schemas)
+			if err != nil {
+				return "", fmt.Errorf("%s.%s: %w", p.Name, sp.Name, err)
+			}
+			subs = append(subs, fmt.Sprintf("XSub %s %s", Str(sp.Name), ss))
+		}
+		pkgs = append(pkgs, fmt.Sprintf("XPackage %s %s %s %s", Str(p.Name), boolT(p.Indirect), ps, list(subs)))
+	}
+	return "[" + strings.Join(pkgs, ";\n    ") + "]", nil
 }
 
 // ---------------------------------------------------------------- reflected schema objects -> Coq
